@@ -20,19 +20,30 @@ CLAIMED = {
         'subprocess/ldd invocation itself not modelled.',
    ref='DESIGN.md §4 C19'),
  'C20': dict(
-   technique='Coq proof over a byte-exact model of xmlwriter.py + in-Coq correspondence + expat read-back',
+   technique='Coq proof over a byte-exact model of xmlwriter.py and over an XML reader for whole documents written from XML 1.0 (parse(write(program)) = the document the program describes, for every program) + in-Coq correspondence of writer model and reader model with XMLWriter and expat',
    text='Theorems (Coq, axiom-free) over a byte-exact model of xmlwriter.py and saxutils.escape/quoteattr: escaping is '
         'inverted by reference decoding and leaves no < or > (all strings); quoteattr yields a quoted body without its '
         'own quote, without <, newline, CR, tab, which decodes to the value; for every tag, indentation and line '
         'length the emitted attribute text scans back to exactly the valued attributes (wrapping never changes '
         'content, valueless attributes omitted); for every nesting of tagcontext blocks and every abort point the '
-        'output is the rendering of a well-bracketed event list (every opened element closed in order). Partial: '
-        'the whole-document statement xml_parse(render ops) = doc_of ops is not proved in Coq; per run it is checked on '
-        'the real XMLWriter output with expat as an independent reader. Tie: model = XMLWriter byte for byte on '
-        'generated programs (valid, aborting, malformed push/pop).',
-   note='Trusted: Coq kernel+VM; saxutils modelled from CPython source (compared through the writer); expat as the '
-        'well-formedness oracle; names are XML Names and text is XML 1.0 Char by hypothesis; disable_whitespace '
-        'mode not modelled.',
+        'output is the rendering of a well-bracketed event list (every opened element closed in order). WHOLE DOCUMENTS '
+        '(Model/C20D.v: a one-pass XML reader with an element stack, written from XML 1.0 and stricter than a full '
+        'processor): for EVERY program of leaf elements, comments and tagcontext blocks of any depth - names being names, '
+        'comment text free of "-->", attribute values and element text arbitrary strings - the reader accepts the bytes the '
+        'writer returns and reports exactly the elements in order and nesting, exactly the attributes that have a value with '
+        'their exact values, exactly the text, and the writer\'s own line breaks and indentation as character data at the stated '
+        'places (C20_document_roundtrip); with blank-only text dropped that is the document the program describes, nothing '
+        'added and nothing lost (C20_document_meaning; C20_comment_padding discharges the comment hypothesis from "no -->"); '
+        'a program that raises leaves the document of the program cut at the first raise, still accepted, every entered block '
+        'closed (C20_document_roundtrip_abort). Tie: Model.C20.run_program = XMLWriter byte for byte on generated programs '
+        '(valid, aborting, malformed push/pop); Model.C20D.xml_parse and expat read every document of the run alike (elements, '
+        'attributes in order, text, comments); expat read-back against the intended document; write_line text and '
+        'disable_whitespace by expat only.',
+   note='Trusted: Coq kernel+VM; saxutils modelled from CPython source (compared through the writer); the reader of '
+        'Model/C20D.v as the statement of what the bytes mean (stricter than XML 1.0: no DOCTYPE, CDATA, blanks in end tags; '
+        'compared with expat on every document of the run); names are names (no blank, quote, =, <, >, /; element names not '
+        'beginning with ! or ?) and text is XML 1.0 Char by hypothesis; one root element is the caller\'s business; '
+        'write_line text statements and disable_whitespace mode are outside the document theorems.',
    ref='DESIGN.md §4 C20'),
  'C13': dict(
    technique='Coq proof over a model of _enum_common_prefix/_create_enum/_create_const with the wrap table regenerated from source + in-Coq correspondence through the real Transformer/GIRWriter',
@@ -189,7 +200,7 @@ CLAIMED = {
         'every parameter/return value, throws and the located warning classes are compared with Model.C01 inside Coq; crisp '
         'clauses of the property are also judged directly on the output.',
    note='Trusted: Coq kernel+VM; stub lexer (SourceSymbol trees are inputs); declared identifiers and their classes are model '
-        'inputs; stub include GIRs. Not generated: methods/instance parameters, signals, virtual methods, nested type '
+        'inputs; stub include GIRs. Methods, virtual methods and the callbacks of class-structure fields are generated for (array length=) only (judged directly: the index names the annotated parameter in every element). Not generated: signals, other annotations on methods, nested type '
         'strings, unknown names in length/closure/destroy (a fatal scanner error). Known findings (not repaired, printed as '
         'KNOWN-FINDING): pass-3 callback heuristics overwrite explicit closure/scope/destroy; invalid closure kept.',
    ref='DESIGN.md §4 C01'),
@@ -293,7 +304,7 @@ CLAIMED = {
         'identifier are compared with Model.C04 inside Coq; underscore/foreign symbols must be absent; crisp clauses judged directly.',
    note='Trusted: Coq kernel+VM; stub lexer; dump as XML; whether a function is introspectable is an observed input of the '
         'comparison (non-introspectable compatibility copies are dropped by the introspectable pass). Not generated: '
-        '(method)/(constructor) annotations, aliases, callbacks, constants, unions, out-direction first parameters.',
+        '(constructor) annotations other than on functions that return a class of an included namespace, aliases, callbacks, constants, unions, out-direction first parameters.',
    ref='DESIGN.md §4 C04'),
  'C05': dict(
    technique='Coq proof of closure of the introspectable pass over arbitrary reference graphs (monotone fixpoint argument) + in-Coq correspondence through the real passes + a GIR linter for the cross-reference clauses',
@@ -323,7 +334,10 @@ CLAIMED = {
         'C10_annotations_and_description; the first was false before fix 4782904); key=value options of array/attributes annotations come '
         'back key by key in order, a value containing = included, for every list of distinct keys (C10_dict_options); lines joined by LF, '
         'by CR LF or by CR are cut into exactly those lines, so the whole result of the block parser - block, indentation, diagnostics - '
-        'is the same under the three conventions (C10_line_endings, C10_block_line_endings, over Model.C10B.parse_block). Tie: 600 '
+        'is the same under the three conventions (C10_line_endings, C10_block_line_endings, over Model.C10B.parse_block); whatever blanks stand in '
+        'front of each line\'s asterisk, differing from line to line, the line loop arrives at the same block, part in progress and flags '
+        '(C10_indentation_independent, by symbolic evaluation of COMMENT_ASTERISK_RE, C10_asterisk_prefix, and non-interference of every '
+        'parser function with the quoted line and column). Tie: 600 '
         '(thorough 6000) field strings - serialized annotation sets in varying layouts, a malformed stream and character soup - go '
         'through the real _parse_fields and are compared with Model.C10.parse_fields inside Coq, the real _serialize_annotations is '
         'compared byte for byte with the model; 620 (thorough 9500) whole comments - generated blocks in ten layouts and comments '
@@ -353,7 +367,10 @@ CLAIMED = {
         'total_on_lines is a verified sufficient condition evaluated on the patterns as regenerated from the source); every diagnostic '
         'is counted whether or not it is displayed, so a warnings-as-errors run fails exactly when something was diagnosed '
         '(C11_counted_even_when_suppressed, C11_fails_iff_diagnosed); line arithmetic and the caret bound of the field-level model '
-        '(C11_block_line_numbers, C11_caret_within_field). Tie: 750 (thorough 15000) damaged and line-soup comments go through the real '
+        '(C11_block_line_numbers, C11_caret_within_field); a malformed annotation is ignored rather than half-applied: a failed parse hands '
+        'on no annotation at all, and a continuation line whose annotations are malformed leaves the parameter\'s annotations, their '
+        'position, the identifier\'s annotations and the tags exactly as they were, however many well-formed annotations precede the '
+        'malformed one on that line (C11_failed_parse_is_empty, C11_malformed_continuation_not_applied). Tie: 750 (thorough 15000) damaged and line-soup comments go through the real '
         'parse_comment_block and are compared inside Coq with Model.C10B.parse_block - raised or not, the block, every diagnostic with '
         'level, message kind, line, column and quoted line, and validate()\'s diagnostics; the crisp clauses (no exception, file, line '
         'inside the comment, quoted line = source line, caret within it) are judged directly on each of them. Further on the real parser: '
